@@ -15,6 +15,7 @@ pub mod s_fn;
 pub mod s_inj;
 pub mod s_filter;
 pub mod s_exec;
+pub mod s_sqlx;
 
 use common::*;
 use std::io::{BufRead, Write};
@@ -34,6 +35,8 @@ fn streams() -> Vec<(&'static str, GenFn, EvalFn)> {
         ("injbase", s_inj::gen_base, s_inj::eval_base),
         ("filter", s_filter::gen, s_filter::eval),
         ("filterx", s_filter::genx, s_filter::evalx),
+        ("sqlx", s_sqlx::gen, s_sqlx::eval),
+        ("sizes", s_sqlx::gen_sizes, s_sqlx::eval_sizes),
         ("c09", s_exec::gen_c09, s_exec::eval_c09),
         ("c01", s_exec::gen_c01, s_exec::eval_c01),
         ("clip", s_exec::gen_clip, s_exec::eval_clip),
